@@ -138,6 +138,20 @@ Theorem C03_peek_step : forall S w ops r n s' d e bug,
 Proof. exact recv_peek_step. Qed.
 Print Assumptions C03_peek_step.
 
+(** Resets and cancellation (any state): the reset / cancellation error is returned only when
+    the stream was cancelled locally, or it was reset and every byte below the (smallest)
+    reliable size has been read; after CancelRead no Read returns data. *)
+Theorem C03_reset_semantics : forall s n s' d c r bug,
+  Read s n = (s', d, ECancel c r, bug) ->
+  cancelledLocally s' = true \/ (cancelledRemotely s' = true /\ reliableSize s' <= rpos s').
+Proof. exact recv_cancel_error. Qed.
+Print Assumptions C03_reset_semantics.
+
+Theorem C03_no_data_after_cancel : forall s n s' d e bug,
+  cancelledLocally s = true -> Read s n = (s', d, e, bug) -> d = [] /\ cancelledLocally s' = true.
+Proof. exact recv_no_data_after_cancel. Qed.
+Print Assumptions C03_no_data_after_cancel.
+
 (** Rejections (any state): a frame beyond an established final size, a FIN with a different
     final size, a FIN below the highest offset received => FINAL_SIZE_ERROR; a frame beyond
     the window => FLOW_CONTROL_ERROR; in either case the sorter, the current frame, the read
